@@ -530,6 +530,7 @@ class WorldB:
                 self.kinds.append(f"enter{len(self.stack)}")
                 propagated = False
                 how = "normal"
+                body_done = False
                 try:
                     with self.ctxs[i] as entered:
                         if entered is not self.ctxs[i]:
@@ -542,10 +543,19 @@ class WorldB:
                         pos = self.run_block(pos + 1, depth + 1)
                         how = self._last_exit
                         self.tr.step = pos - 1
+                        body_done = True
                         if how == "exc":
                             raise _BlockExit()
                 except _BlockExit:
                     propagated = True
+                except (Violation, HarnessError):
+                    raise
+                except Exception as e:
+                    if not body_done:
+                        raise  # not from __exit__: a bug of the harness, reported as such
+                    raise Violation(
+                        "A5", f"leaving the block of context {i} ({how} exit) raised "
+                              f"{type(e).__name__}: {str(e)[:100]} (stack {self.stack})")
                 self.stack.pop()
                 if how == "exc":
                     self.had_disruption = True
@@ -570,6 +580,7 @@ class WorldB:
                 self.kinds.append(f"enter-reg{len(self.stack)}")
                 propagated = False
                 how = "normal"
+                body_done = False
                 try:
                     with self.bare_regs[j] as entered:
                         if entered is not self.bare_regs[j]:
@@ -583,10 +594,19 @@ class WorldB:
                         pos = self.run_block(pos + 1, depth + 1)
                         how = self._last_exit
                         self.tr.step = pos - 1
+                        body_done = True
                         if how == "exc":
                             raise _BlockExit()
                 except _BlockExit:
                     propagated = True
+                except (Violation, HarnessError):
+                    raise
+                except Exception as e:
+                    if not body_done:
+                        raise
+                    raise Violation(
+                        "A5", f"leaving the block of bare registry {j} ({how} exit) raised "
+                              f"{type(e).__name__}: {str(e)[:100]} (stack {self.stack})")
                 self.stack.pop()
                 if how == "exc":
                     self.had_disruption = True
